@@ -31,6 +31,12 @@ PingName == <<80, 105, 110, 103>>     \* "Ping"
 SipFails(e) ==
   LET h == SipHashBytes(e.msg, e.k0, e.k1) IN
   Tag(e.u8 = h, "uint8-buffer") \cup Tag(e.ch = h, "char-buffer")
+  \* the array entry point (the one the name macros use): every byte of the array counts, zero bytes included
+  \cup (IF "au8" \in DOMAIN e THEN Tag(e.au8 = h, "uint8-array") ELSE {})
+  \cup (IF "ach" \in DOMAIN e THEN Tag(e.ach = h, "char-array") ELSE {})
+\* hashes of constant arrays evaluated in constant expressions
+SipCtFails(e) ==
+  UnionOver(Len(e.rows), LAMBDA i : Tag(e.rows[i].ct = SipHashBytes(e.rows[i].msg, e.k0, e.k1), "compile-time-array"))
 
 NameFails(e) ==
   UnionOver(Len(e.rows), LAMBDA i :
@@ -56,6 +62,7 @@ End32Fails(e) ==
 Fails(e) ==
   IF e.e \in {"UB", "Crash", "Exc", "Timeout", "BadCmd", "Race"} THEN {"abnormal"}
   ELSE CASE e.e = "SIP" -> SipFails(e)
+         [] e.e = "SIPCT" -> SipCtFails(e)
          [] e.e = "NAMES" -> NameFails(e)
          [] e.e = "END" -> EndFails(e)
          [] e.e = "END32" -> End32Fails(e)
